@@ -1,12 +1,14 @@
 import RbV.Ref.MyersHit
 import RbV.Model.Ukkonen
+import RbV.Model.MyersSimple
 /-!
 Matrix-level model of the decision rule of the Myers traceback (`traceback.rs: Traceback::_traceback_at`) (C10 [B]).
 Core Lean only.
 
 The Rust code walks from the cell (m, end) of the Sellers matrix to row 0.  It reconstructs the three neighbouring
-values from the stored `Pv/Mv` columns (`adjust_dist`, `adjust_by_mask`, `move_left_down_if_better`); this model reads
-them from the matrix `D i j` = (row `i`, after `j` text symbols) directly and keeps the *order of the tests*:
+values from the stored `Pv/Mv` columns (`adjust_dist`, `adjust_by_mask`, `move_left_down_if_better`); the first model
+below (`walkF`, `traceback`) reads them from the matrix `D i j` = (row `i`, after `j` text symbols) directly and keeps
+the *order of the tests*; the second half of the file is the stored-state model (handler, states vector, ring buffer):
   1. `left_block.dist + 1 == block.dist`             diagonal value + 1 = current value   → `Subst`
   2. `block.pv & pos != 0`                          upper value + 1 = current value      → `Ins`
   3. `left_block.mv & pos != 0`                     left value = diagonal value − 1      → `Del`
@@ -49,5 +51,179 @@ def walkF (D : Nat → Nat → Nat) : Nat → Nat → Nat → Nat × List Op
 def traceback (w : Nat → Nat → Nat) (p t : List Nat) (stop : Nat) : Nat × List Op :=
   let r := walkF (Dm (matrix w p t)) (p.length + stop) p.length stop
   (r.1, r.2.reverse)
+
+
+/-! ## Stored-state model (single-word version): `simple.rs: ShortStatesHandler / ShortTracebackHandler`,
+`myers_impl.rs: State::{adjust_dist, adjust_by_mask, max}`, `traceback.rs: Traceback::{new, add_state, traceback_at,
+_traceback_at}`
+
+The search stores one `State` (`pv`, `mv`, `dist` = value in the last row) per text position in a vector of `N` slots
+(`N = m + min(k,m) + 2` for `find_all`, `N = n + 2` for `find_all_lazy`) which it fills cyclically: slot 0 first gets the
+sentinel `State::max()`, slot 1 the initial column, then one slot per text symbol (`positions = (0..N).cycle()`).  We call
+the running number of a write its *sequence number* `s` (sentinel 0, initial column 1, column after `c` symbols `c + 1`);
+it goes to slot `s % N`.  The traceback handler holds a copy of the current and of the left column's state and
+re-derives the distances of the neighbouring cells from single bits of `pv`/`mv` (`adjust_dist`) resp. from bit counts
+under a range mask (`adjust_by_mask`).
+
+`St w` (from the C09 model) = `State<T, D>`; distances are unbounded `Nat` here, the only place where the width of the
+distance type `D` is used by the code (`wrapping_add` in the Subst test, `D::max_value()` in the sentinel) is modelled
+with the parameter `dmax` (= 255: `DistType = u8` for every word type).  `-= 1` is truncated subtraction: the theorems
+show the minuend is ≥ 1 whenever it is executed. -/
+
+open RbV.Model.MyersSimple (St)
+
+/-- `count_ones()` -/
+def popc {w : Nat} (x : BitVec w) : Nat := go x w
+where
+  go {w : Nat} (x : BitVec w) : Nat → Nat
+    | 0 => 0
+    | i + 1 => go x i + (x.getLsbD i).toNat
+
+/-- `State::max()` = `State::init(D::max_value())` -/
+def maxSt (w dmax : Nat) : St w := ⟨BitVec.allOnes w, 0#w, dmax⟩
+
+/-- `State::adjust_dist(pos_mask)` -/
+def adjustDist {w : Nat} (s : St w) (posMask : BitVec w) : St w :=
+  if (s.pv &&& posMask) != 0#w then { s with dist := s.dist - 1 }
+  else if (s.mv &&& posMask) != 0#w then { s with dist := s.dist + 1 }
+  else s
+
+/-- `State::adjust_by_mask(mask)`: `dist + popcount(mv & mask) − popcount(pv & mask)` -/
+def adjustByMask {w : Nat} (s : St w) (mask : BitVec w) : St w :=
+  { s with dist := s.dist + popc (s.mv &&& mask) - popc (s.pv &&& mask) }
+
+/-- `ShortTracebackHandler`; `taken` = number of items already drawn from `states_iter` -/
+structure Handler (w : Nat) where
+  state : St w
+  left : St w
+  maxMask : BitVec w
+  pos : BitVec w
+  leftMask : BitVec w
+  taken : Nat
+
+/-- `ShortTracebackHandler::new(m, pos, states)`; `rd k` = the `k`-th item of the reversed, cyclic iterator over the
+states that starts at slot `pos` -/
+def Handler.new {w : Nat} (m : Nat) (rd : Nat → St w) : Handler w :=
+  let mask0 := 1#w <<< (m - 1)
+  ⟨rd 0, rd 1, mask0, mask0, 0#w, 2⟩
+
+def Handler.moveUp {w : Nat} (h : Handler w) (adjust : Bool) : Handler w :=
+  { h with state := if adjust then adjustDist h.state h.pos else h.state, pos := h.pos >>> 1 }
+
+def Handler.moveUpLeft {w : Nat} (h : Handler w) (adjust : Bool) : Handler w :=
+  { h with leftMask := (h.leftMask >>> 1) ||| h.maxMask,
+           left := if adjust then adjustDist h.left h.pos else h.left }
+
+def Handler.moveToLeft {w : Nat} (rd : Nat → St w) (h : Handler w) : Handler w :=
+  { h with state := h.left, left := adjustByMask (rd h.taken) h.leftMask, taken := h.taken + 1 }
+
+def Handler.moveLeftDownIfBetter {w : Nat} (h : Handler w) : Bool × Handler w :=
+  if (h.left.mv &&& h.pos) != 0#w then (true, { h with left := { h.left with dist := h.left.dist - 1 } })
+  else (false, h)
+
+def Handler.finished {w : Nat} (h : Handler w) : Bool := h.pos == 0#w
+
+/-- one pass through the body of `while !h.finished()` in `_traceback_at`: (operation pushed, whether `h_offset` was
+incremented and `move_to_left` called, handler afterwards) -/
+def Handler.iter {w : Nat} (dmax : Nat) (rd : Nat → St w) (h : Handler w) : Op × Bool × Handler w :=
+  if (h.left.dist + 1) % (dmax + 1) = h.state.dist then       -- `left.dist.wrapping_add(1) == block.dist`
+    (Op.sub, true, ((h.moveUp false).moveUpLeft false).moveToLeft rd)
+  else if (h.state.pv &&& h.pos) != 0#w then
+    (Op.ins, false, (h.moveUp true).moveUpLeft true)
+  else
+    match h.moveLeftDownIfBetter with
+    | (true, h') => (Op.del, true, h'.moveToLeft rd)
+    | (false, h') => (Op.mat, true, ((h'.moveUp false).moveUpLeft false).moveToLeft rd)
+
+/-- the `while` loop; returns (`h_offset`, operations in the order in which they are pushed) -/
+def Handler.loop {w : Nat} (dmax : Nat) (rd : Nat → St w) : Nat → Handler w → Nat × List Op
+  | 0, _ => (0, [])
+  | fuel + 1, h =>
+    if h.finished then (0, []) else
+      let r := Handler.loop dmax rd fuel (h.iter dmax rd).2.2
+      (r.1 + (if (h.iter dmax rd).2.1 then 1 else 0), (h.iter dmax rd).1 :: r.2)
+
+/-- the handler when the loop is entered: `init_traceback` then `move_up_left(true)` -/
+def Handler.start {w : Nat} (m : Nat) (rd : Nat → St w) : Handler w := (Handler.new m rd).moveUpLeft true
+
+/-- the handler after `n` passes through the loop body -/
+def Handler.after {w : Nat} (dmax m : Nat) (rd : Nat → St w) : Nat → Handler w
+  | 0 => Handler.start m rd
+  | n + 1 =>
+    let h := Handler.after dmax m rd n
+    if h.finished then h else (h.iter dmax rd).2.2
+
+/-- `_traceback_at` on a given reverse iterator: (`h_offset`, `dist`, ops as pushed) -/
+def tracebackRd {w : Nat} (dmax m : Nat) (rd : Nat → St w) (fuel : Nat) : Nat × Nat × List Op :=
+  let r := Handler.loop dmax rd fuel (Handler.start m rd)
+  (r.1, (rd 0).dist, r.2)
+
+/-! ### the states vector -/
+
+/-- the items in the order in which `Traceback::new` / `add_state` store them: sentinel, initial column, then the
+state after every text symbol -/
+def seqStates (w : Nat) (eqv : Nat → Nat → Bool) (p : List Nat) (dmax : Nat) (t : List Nat) : List (St w) :=
+  maxSt w dmax :: go (RbV.Model.MyersSimple.init w p.length) t
+where
+  go (s : St w) : List Nat → List (St w)
+    | [] => [s]
+    | a :: t => s :: go (RbV.Model.MyersSimple.step p.length (RbV.Model.MyersSimple.peq w eqv p a) s) t
+
+/-- the vector after the items `items` have been stored cyclically (`positions = (0..N).cycle()`), starting with
+sequence number `s`, on top of whatever the vector held before (`Traceback::new` keeps the old contents of
+`states_store` or fills up with `State::default()`) -/
+def storeAll {w : Nat} (N : Nat) : List (St w) → Nat → List (St w) → List (St w)
+  | store, _, [] => store
+  | store, s, x :: items => storeAll N (store.set (s % N) x) (s + 1) items
+
+/-- slot visited by the `k`-th `next()` of `states[..=pos].iter().rev().chain(states.iter().rev().cycle())` -/
+def readSlot (N pos k : Nat) : Nat := if k ≤ pos then pos - k else N - 1 - ((k - pos - 1) % N)
+
+def readStore {w : Nat} (store : List (St w)) (pos k : Nat) : St w :=
+  store.getD (readSlot store.length pos k) ⟨0#w, 0#w, 0⟩
+
+/-- `Traceback::traceback_at(end_pos)` of the lazy API after `c` text symbols have been consumed: `self.pos` is the slot
+of the last write (sequence number `c + 1`); `None` unless `end_pos + 2 ≤ self.pos` -/
+def availableAt (N c endPos : Nat) : Bool := decide (endPos + 2 ≤ (c + 1) % N)
+
+/-- the whole stored-state traceback: search the first `c` symbols of `t` storing the states in a vector of `N` slots
+with previous contents `old`, then `_traceback_at(slot of sequence number stop + 1)`; result (start, dist, ops forward)
+as the public API reports it (`start = end_pos + 1 − h_offset`, path reversed) -/
+def tracebackStore (w : Nat) (eqv : Nat → Nat → Bool) (p : List Nat) (dmax N : Nat) (old : List (St w)) (t : List Nat)
+    (c stop : Nat) : Nat × Nat × List Op :=
+  let store := storeAll N old 0 (seqStates w eqv p dmax (t.take c))
+  let r := tracebackRd dmax p.length (readStore store ((stop + 1) % N)) (p.length + stop)
+  (stop - r.1, r.2.1, r.2.2.reverse)
+
+
+/-! ### single pass over the text for the driver
+
+`tracebackStore` rebuilds the vector for every end position.  The driver needs the tracebacks at many ends of one search:
+`scanStore` keeps the vector (an `Array`) and the search state while it walks over the text once, exactly as
+`FullMatches` / `LazyMatches` do, and runs `_traceback_at` at the wanted ends (`Lemmas/TracebackScan.lean`:
+`scanStore_eq`, each reported triple is `tracebackStore … c c`). -/
+
+def readArr {w : Nat} (store : Array (St w)) (pos k : Nat) : St w :=
+  store.getD (readSlot store.size pos k) ⟨0#w, 0#w, 0⟩
+
+/-- `_traceback_at(self.pos)` after `c` symbols -/
+def tracebackNow {w : Nat} (m dmax N : Nat) (store : Array (St w)) (c : Nat) : Nat × Nat × List Op :=
+  let r := tracebackRd dmax m (readArr store ((c + 1) % N)) (m + c)
+  (c - r.1, r.2.1, r.2.2.reverse)
+
+def scanGo (w : Nat) (eqv : Nat → Nat → Bool) (p : List Nat) (dmax N : Nat) (want : Nat → Bool) :
+    Array (St w) → St w → Nat → List Nat → List (Nat × Nat × Nat × List Op)
+  | store, _, c, [] => if want c then [(c, tracebackNow p.length dmax N store c)] else []
+  | store, s, c, a :: rest =>
+    let s' := RbV.Model.MyersSimple.step p.length (RbV.Model.MyersSimple.peq w eqv p a) s
+    (if want c then [(c, tracebackNow p.length dmax N store c)] else []) ++
+      scanGo w eqv p dmax N want (store.setIfInBounds ((c + 2) % N) s') s' (c + 1) rest
+
+/-- all `(stop, start, dist, ops)` with `want stop`, `stop = 0 … |t|`, each computed when exactly `stop` symbols have been
+consumed -/
+def scanStore (w : Nat) (eqv : Nat → Nat → Bool) (p : List Nat) (dmax N : Nat) (old : List (St w)) (t : List Nat)
+    (want : Nat → Bool) : List (Nat × Nat × Nat × List Op) :=
+  let s0 := RbV.Model.MyersSimple.init w p.length
+  scanGo w eqv p dmax N want (((old.toArray).setIfInBounds (0 % N) (maxSt w dmax)).setIfInBounds (1 % N) s0) s0 0 t
 
 end RbV.Model.MyersTraceback
